@@ -154,6 +154,31 @@ def worker(case, led):
         model = holstein(nmol, scheme, seed=seed)
         Hd = U.dense_terms(model, model.ham_terms).real
         hn = np.linalg.norm(Hd, 2)
+        # an explicit Hamiltonian model that differs from the model the identity state was built with (documented argument h_mpo_model): the result is the Gibbs
+        # state of THAT Hamiltonian
+        if method == "prop_and_compress":
+            model2 = holstein(nmol, scheme, seed=seed + 101)
+            Hd2 = U.dense_terms(model2, model2.ham_terms).real
+            A0 = MpDm.max_entangled_ex(model)
+            A0.compress_config = CompressConfig(CompressCriteria.fixed, max_bonddim=64)
+            nsteps2 = 4
+            db2 = beta / 2 / nsteps2
+            key2 = (nmol, scheme, method, beta, "h_mpo_model")
+            rep2 = {"nmol": nmol, "scheme": scheme, "method": method, "beta": beta, "seed": seed, "h_mpo_model": "props.C10.holstein(nmol, scheme, seed=seed+101)"}
+            try:
+                tp2 = ThermalProp(A0, h_mpo_model=model2, evolve_config=EvolveConfig(getattr(EvolveMethod, method), guess_dt=-1j * db2))
+                tp2.evolve(evolve_dt=-1j * db2, nsteps=nsteps2)
+                mask1 = S.sector_mask(model, 1)
+                P1 = np.diag(mask1.astype(float))
+                w2 = scipy.linalg.expm(-beta * Hd2) @ P1
+                e2 = np.trace(w2 @ Hd2) / np.trace(w2)
+                x2 = db2 * np.linalg.norm(Hd2, 2)
+                tol2 = 4 * nsteps2 * bound_for(method, x2, tp2.latest_mps, len(model.basis), 1.0) * np.exp(x2) * 3 * max(1.0, np.linalg.norm(Hd2, 2))
+                led.check(abs(tp2.energies[-1] - e2) <= tol2, "post:ThermalProp.evolve:explicit_hamiltonian_model_is_used", "ThermalProp.evolve_prop",
+                          f"E={tp2.energies[-1]:.6f} vs the Gibbs average of the given h_mpo_model {e2:.6f} (tol {tol2:.2e}); Gibbs average of the state's own model would be "
+                          f"{np.trace(scipy.linalg.expm(-beta * Hd) @ P1 @ Hd) / np.trace(scipy.linalg.expm(-beta * Hd) @ P1):.6f}", key2, {"method": method}, rep2)
+            except Exception as e:
+                led.check(False, "post:ThermalProp.evolve:total", "ThermalProp.evolve", f"h_mpo_model run raised {type(e).__name__}: {e}", key2, {"method": method, "h_mpo_model": True}, rep2)
         for sector, ctor in ((1, "max_entangled_ex"), (0, "max_entangled_gs")):
             if sector == 0 and method in ("tdvp_ps", "tdvp_vmf", "tdvp_mu_vmf", "tdvp_mu_cmf"):
                 # one-site TDVP needs the bond-dimension expander, which the library supports (assert) for the one-exciton purified state only
@@ -224,6 +249,22 @@ def worker(case, led):
             led.check(np.abs(Ad / np.linalg.norm(Ad) - ref).max() <= 1e-9, "post:ThermalProp.evolve_exact:local_gibbs_state", "ThermalProp.evolve_exact",
                       f"deviates from the normalised expm(-beta/2 H_loc) A0 by {np.abs(Ad / np.linalg.norm(Ad) - ref).max():.2e}", key, {"space": space},
                       {"nmol": nmol, "scheme": scheme, "space": space, "beta": beta, "seed": seed})
+            # the same with an explicit Hamiltonian model (documented argument h_mpo_model) that differs from the model of the identity state
+            if isinstance(nmol, int):
+                model2 = holstein(nmol, scheme, seed=seed + 101)
+                Hl2 = local_h(model2, space)
+                try:
+                    tp2 = ThermalProp(getattr(MpDm, ctor)(model), h_mpo_model=model2, exact=True, space=space)
+                    tp2.evolve(None, 2, beta / 2j)
+                    Ad2 = S.dense(tp2.latest_mps)
+                    ref2 = scipy.linalg.expm(-beta / 2 * Hl2) @ A0d
+                    ref2 = ref2 / np.linalg.norm(ref2)
+                    dev = np.abs(Ad2 / np.linalg.norm(Ad2) - ref2).max()
+                    led.check(dev <= 1e-9, "post:ThermalProp.evolve_exact:explicit_hamiltonian_model_is_used", "ThermalProp.evolve_exact",
+                              f"deviates from the local Gibbs state of the given h_mpo_model by {dev:.2e} (from that of the state's own model by {np.abs(Ad2 / np.linalg.norm(Ad2) - ref).max():.2e})",
+                              key + ("h_mpo_model",), {"space": space}, {"nmol": nmol, "scheme": scheme, "space": space, "beta": beta, "seed": seed, "h_mpo_model": "holstein(seed+101)"})
+                except Exception as e:
+                    led.check(False, "post:ThermalProp.evolve_exact:total", "ThermalProp.evolve_exact", f"h_mpo_model run raised {type(e).__name__}: {e}", key + ("h_mpo_model",), {"space": space}, {})
 
 
 def check(run):
